@@ -224,7 +224,19 @@ def load_known():
 
 
 # ------------------------------------------------------------------ main
+def jsonable(x):
+    """dict keys to str (mixed int/str keys cannot be sorted), tuples to lists"""
+    if isinstance(x, dict):
+        return {str(k): jsonable(v) for k, v in x.items()}
+    if isinstance(x, (list, tuple)):
+        return [jsonable(v) for v in x]
+    if isinstance(x, (bytes, bytearray)):
+        return x.hex()
+    return x
+
+
 def write_replay(pid, name, data):
+    data = jsonable(data)
     d = os.path.join(ROOT, "replays", pid)
     os.makedirs(d, exist_ok=True)
     path = os.path.join(d, name)
@@ -295,11 +307,13 @@ def run_check(pid, tier, seed, replay=None):
         for f in violations:
             byk.setdefault(f["key"], f)
         for key, f in byk.items():
-            h = hashlib.sha1(json.dumps(f.get("replay"), sort_keys=True, default=str).encode()).hexdigest()[:12]
+            h = hashlib.sha1(json.dumps(jsonable(f.get("replay")), sort_keys=True, default=str).encode()).hexdigest()[:12]
             path = write_replay(pid, f"{h}.json", dict(property=pid, key=key, what=f["what"], replay=f.get("replay"),
                                                         also_broken=[p[0] + ":" + str(p[2]) for p in problems]))
-            lines.append(f"VIOLATION property={pid} replay={path}")
-            nviol += 1
+            ln = f"VIOLATION property={pid} replay={path}"
+            if ln not in lines:
+                lines.append(ln)
+                nviol += 1
         exit_code = 1
     elif problems or ex.disagreements:
         # nothing fails on the real code that a monitor can see: report what no longer checks
@@ -345,7 +359,7 @@ def run_check(pid, tier, seed, replay=None):
         else os.path.join(ROOT, ".cache", "evidence_alt")
     os.makedirs(evdir, exist_ok=True)
     with open(os.path.join(evdir, f"{pid}.json"), "w") as f:
-        json.dump(evidence, f, indent=1, default=str)
+        json.dump(jsonable(evidence), f, indent=1, default=str)
     for ln in lines:
         print(ln)
     print(f"[{pid}] tier={tier} seed={seed} proofs {proofs['discharged']}/{proofs['obligations']} "
